@@ -70,6 +70,11 @@ type sess struct {
 	txSeq                        int
 	lastSet                      string
 
+	// TLS (added after seeded change C03-12, see tls.go)
+	tlsConf bool     // the server is configured for STARTTLS
+	link    *tlsLink // non-nil once the session has been upgraded
+	tlsPlan int      // upgrade once this many transactions have ended (-1: no plan)
+
 	events map[string]bool
 	judged int
 	failed bool
@@ -83,7 +88,7 @@ func (s *sess) fail(key, what string) {
 	if len(tr) > 40 {
 		tr = tr[len(tr)-40:]
 	}
-	s.c.Violation("C03:"+key, what, map[string]any{"backend": s.backend, "max_rcpt": s.env.Conf.SMTP.MaxRecipients, "max_bytes": s.env.Conf.SMTP.MaxMessageBytes,
+	s.c.Violation("C03:"+key, what, map[string]any{"backend": s.backend, "tls_configured": s.tlsConf, "inside_tls": s.link != nil, "max_rcpt": s.env.Conf.SMTP.MaxRecipients, "max_bytes": s.env.Conf.SMTP.MaxMessageBytes,
 		"acked_in_open_tx": texts(s.acked), "trace_tail": tr})
 }
 
@@ -122,12 +127,27 @@ func runSeq(c *fw.Ctx, idx int, r *fw.Rand) {
 		conf.Storage.Type = "file"
 		conf.Storage.Params = map[string]string{"path": dir}
 	}
+	// Added after seeded change C03-12: a third of the sessions run against a server configured for
+	// STARTTLS, about half of those plan an upgrade at a transaction boundary.  Drawn from a stream
+	// of its own so that the dialogue of every session without TLS is what it was before.
+	rt := c.Rand("seq-tls", idx)
+	tlsConf, tlsPlan := false, -1
+	if rt.Chance(1, 3) && withTLS(c, conf) {
+		tlsConf = true
+		if rt.Bool() {
+			tlsPlan = rt.Weighted([]int{5, 3, 2})
+		}
+	}
 	env, err := sut.NewEnv(conf, backend)
 	if err != nil {
 		panic(err)
 	}
 	s := &sess{c: c, r: r, idx: idx, backend: backend, env: env, sm: newStoreModel(env), events: map[string]bool{},
-		used: map[string]bool{}}
+		used: map[string]bool{}, tlsConf: tlsConf, tlsPlan: tlsPlan}
+	if tlsConf {
+		c.Count("seq_sessions_tls_configured", 1)
+		backend += "+tls"
+	}
 	for len(s.pool) < 7 {
 		a := gen.SimpleAddr(r, []string{"alpha.test", "beta.test", "Gamma.Example", "[192.168.1.5]"})
 		a.Local = fmt.Sprintf("%s%c", a.Local, 'a'+len(s.pool)) // distinct mailboxes
@@ -140,7 +160,7 @@ func runSeq(c *fw.Ctx, idx int, r *fw.Rand) {
 	}
 	s.txTarget = r.Range(1, 4)
 	s.rcptTarget = r.Range(1, 4)
-	c.Count("seq_sessions:"+backend, 1)
+	c.Count("seq_sessions:"+s.backend, 1)
 	s.ss = env.StartSMTP()
 	defer func() {
 		if !s.ss.Ended() {
@@ -224,7 +244,7 @@ func (s *sess) idleTimeout() {
 		s.failed = true
 		return
 	}
-	s.ss.Q.Take()
+	_, _ = s.take()
 	s.ss.Q.FireReadTimeout()
 	// Whether the session went on is read off the connection (closed, or blocked in Read again: a
 	// logical fact), not off a watchdog period: a tree whose sessions survive the timeout used to
@@ -239,8 +259,14 @@ func (s *sess) idleTimeout() {
 		// A server may also stay in its command loop after an idle timeout; then the client closes.
 		s.c.Count("session_continues_after_idle_timeout", 1)
 	}
-	out := s.ss.Q.Take()
+	out, terr := s.take()
 	reps, mal := sut.ParseSMTPReplies(out)
+	if terr != nil && mal == "" {
+		mal = "TLS stream from the server is broken: " + terr.Error()
+	}
+	if s.link != nil {
+		s.c.Count("idle_timeouts_inside_tls", 1)
+	}
 	if mal != "" || len(reps) > 1 {
 		s.fail("multiple-replies:idle-timeout", fmt.Sprintf("%d replies (malformed %q) after the read deadline expired: %v", len(reps), mal, replyStrings(reps)))
 		return
@@ -252,7 +278,7 @@ func (s *sess) idleTimeout() {
 func (s *sess) play(l line) {
 	c := s.c
 	st := s.state()
-	replies, mal, closed, ok := s.ss.Step([]byte(l.text + "\r\n"))
+	replies, mal, closed, ok := s.step([]byte(l.text + "\r\n"))
 	if !ok {
 		c.Hang("smtp-no-quiescence", fmt.Sprintf("session neither idle nor closed after line kind %s", l.kind), "")
 		s.failed = true
@@ -280,6 +306,18 @@ func (s *sess) play(l line) {
 	}
 	rep := replies[0]
 	c.Count("replies_observed", 1)
+	if s.link != nil {
+		c.Count("replies_observed_inside_tls", 1)
+		st = "tls:" + st
+	} else if s.tlsConf {
+		c.Count("replies_observed_tls_configured_clear", 1)
+	}
+	if len(rep.Lines) > 1 {
+		c.Count("multi_line_replies", 1)
+		if s.tlsConf {
+			c.Count("multi_line_replies_tls_configured", 1)
+		}
+	}
 	s.events[st+"|"+l.kind+"|"+fmt.Sprint(rep.Code)] = true
 	verb := verbOf(l.text)
 
@@ -299,6 +337,10 @@ func (s *sess) play(l line) {
 			return
 		}
 		s.auth = false // answered like a command: judge it like one
+	}
+	if l.kind == "STARTTLS" && rep.Code == 220 {
+		s.startTLS(l, rep, closed)
+		return
 	}
 	if rep.Code == 334 {
 		s.auth = true
@@ -331,6 +373,11 @@ func (s *sess) play(l line) {
 	switch verb {
 	case "HELO", "EHLO":
 		if ack {
+			if verb == "EHLO" && s.tlsConf {
+				// evidence only: what a server offers is not the property's business
+				off := strings.Contains(strings.ToUpper(rep.String()), "STARTTLS")
+				s.c.Count(fmt.Sprintf("ehlo_replies_tls_configured:inside_tls=%v:offers_starttls=%v", s.link != nil, off), 1)
+			}
 			if s.txOpen {
 				if verb == "EHLO" {
 					s.endTx("ehlo")
@@ -452,7 +499,7 @@ func (s *sess) dataPhase() {
 		if r.Chance(1, 3) {
 			k = len(block) - 1 - r.Intn(5) // just before the end of the terminator
 		}
-		s.ss.Q.Send(block[:k])
+		s.send(block[:k])
 		c.Count("closed_inside_data", 1)
 		s.finish()
 		return
@@ -461,7 +508,7 @@ func (s *sess) dataPhase() {
 		// The server's idle timeout expires inside the data block (injected logically): the
 		// block was never completed, so nothing may be stored; at most one reply, session ends.
 		k := r.Intn(len(block))
-		s.ss.Q.Send(block[:k])
+		s.send(block[:k])
 		c.Count("idle_timeout_inside_data", 1)
 		s.idleTimeout()
 		return
@@ -477,7 +524,7 @@ func (s *sess) dataPhase() {
 		if k == prev {
 			continue
 		}
-		reps, mal, closed, ok := s.ss.Step(block[prev:k])
+		reps, mal, closed, ok := s.step(block[prev:k])
 		if !ok {
 			c.Hang("smtp-no-quiescence", "session neither idle nor closed inside a data block", "")
 			s.failed = true
@@ -489,7 +536,7 @@ func (s *sess) dataPhase() {
 		}
 		prev = k
 	}
-	reps, mal, closed, ok := s.ss.Step(block[prev:])
+	reps, mal, closed, ok := s.step(block[prev:])
 	if !ok {
 		c.Hang("smtp-no-quiescence", "session neither idle nor closed after the end of a data block", "")
 		s.failed = true
@@ -537,6 +584,9 @@ func (s *sess) dataPhase() {
 		if rep.Code == 250 {
 			c.Count("transactions_stored", 1)
 			c.Count("messages_stored", int64(stored))
+			if s.link != nil {
+				c.Count("transactions_stored_inside_tls", 1)
+			}
 			set := strings.Join(texts(s.acked), ",")
 			if s.lastSet != "" && s.lastSet != set {
 				c.Count("consecutive_transactions_with_different_recipient_sets", 1)
@@ -745,6 +795,12 @@ func (s *sess) next() line {
 	r := s.r
 	if s.auth {
 		return s.credential()
+	}
+	if s.tlsPlan >= 0 && s.link == nil && s.greeted && !s.txOpen && s.txDone >= s.tlsPlan {
+		// the planned upgrade (no draw from r: see runSeq)
+		s.tlsPlan = -1
+		s.probe = ""
+		return line{text: "STARTTLS", kind: "STARTTLS"}
 	}
 	if p := s.probe; p != "" {
 		s.probe = ""
